@@ -6,6 +6,7 @@
 use vcore::pick_index;
 
 use crate::types::*;
+use crate::world::keys;
 
 pub const T_IN: usize = 0;
 pub const T_OUT: usize = 1;
@@ -29,6 +30,24 @@ pub enum Cause {
     MissingTKey,
     MissingSKey,
     PreOverwinter,
+    /// ZIP 317 fee rules: a P2SH input whose redeem script is not a recognized kind has no known
+    /// size (documented `zip317::FeeError::UnknownP2shInputs`)
+    UnknownP2sh,
+    /// signing a P2SH input whose redeem script is not multisig (documented
+    /// `transparent::builder::Error::UnsupportedScript`)
+    UnsupportedScript,
+    /// `DeferredPcztBuilder::new` below NU6.3 (documented `Error::AnchorDeferralUnsupported`)
+    DeferralUnsupported,
+}
+
+/// Reference view of one requested P2SH multisig input.
+#[derive(Clone, Debug, PartialEq, Eq)]
+pub struct P2shRef {
+    pub m: usize,
+    /// harness key index per redeem-script position
+    pub keys: Vec<usize>,
+    /// positions whose key is in the signing set (ascending)
+    pub available: Vec<usize>,
 }
 
 #[derive(Clone, Debug)]
@@ -60,9 +79,21 @@ pub struct Plan {
     /// checked.
     pub undecided_shape: bool,
     pub causes: Vec<Cause>,
+    /// documented reasons for which the build MAY fail without the property requiring it
+    pub may: Vec<Cause>,
     /// key index left out of the signing set / spending keys
     pub omit_tkey: Option<usize>,
     pub omit_skey: Option<usize>,
+    /// redeem script per requested transparent input (`None` for P2PKH)
+    pub redeem: Vec<Option<Vec<u8>>>,
+    /// multisig view per requested transparent input (`None` unless P2SH multisig)
+    pub p2sh: Vec<Option<P2shRef>>,
+    /// transparent signing set, in the order in which the keys are added (full builds only)
+    pub sign_set: Vec<usize>,
+    /// some accepted P2SH multisig input has fewer than m of its keys in the signing set
+    pub p2sh_short_of_keys: bool,
+    /// `DeferredPcztBuilder::new` is documented to succeed
+    pub deferral_ok: bool,
 }
 
 impl Plan {
@@ -83,6 +114,19 @@ impl Plan {
     }
 }
 
+/// Redeem script of a requested input, from the harness keys (`None` for P2PKH).
+pub fn redeem_script_of(x: &TIn) -> Option<Vec<u8>> {
+    let k = keys();
+    match &x.spend {
+        TSpend::P2pkh => None,
+        TSpend::P2sh { m, keys: ks, .. } => {
+            let pks: Vec<[u8; 33]> = ks.iter().map(|i| k.t[*i as usize].pk.serialize()).collect();
+            Some(multisig_redeem_script(*m, &pks))
+        }
+        TSpend::P2shOther => Some(p2pkh_script(&k.t[x.key as usize].pkh)),
+    }
+}
+
 /// `reject_undecided`: assume that a proposal whose validity the property leaves open (see
 /// `Plan::propose_undecided`) is rejected by the builder; the caller first plans with `false` and
 /// re-plans with `true` when the builder does reject it.
@@ -92,11 +136,20 @@ pub fn plan(c: &Case, reject_undecided: bool) -> Plan {
     let z212 = ref_zip212(lay, c.height);
     // Builder error docs: Sapling needs an anchor; Orchard needs an anchor and NU5; Ironwood needs
     // an anchor and NU6.3.
-    let sap_exists = c.sap_anchor != Anc::None;
-    let orc_exists = c.orc_anchor != Anc::None && br >= Br::Nu5;
-    let iro_exists = c.iro_anchor != Anc::None && br >= Br::Nu6_3;
+    // DeferredPcztBuilder: no anchors at all, both Orchard-family pools always available, but only
+    // where the branch's default format is v6 (documented on `DeferredPcztBuilder::new`); it takes
+    // no transparent or Sapling content.
+    let deferred = c.engine == Engine::Deferred;
+    let deferral_ok = ref_default_version(br) == Ver::V6;
+    if deferred {
+        assert!(c.t_in.is_empty() && c.t_out.is_empty() && c.s_in.is_empty() && c.s_out.is_empty() && c.propose.is_none(), "harness: deferred cases carry Orchard-family content only");
+    }
+    let sap_exists = !deferred && c.sap_anchor != Anc::None;
+    let orc_exists = if deferred { deferral_ok } else { c.orc_anchor != Anc::None && br >= Br::Nu5 };
+    let iro_exists = if deferred { deferral_ok } else { c.iro_anchor != Anc::None && br >= Br::Nu6_3 };
     // Orchard pool from NU6.3: cross-address transfers prohibited (OrchardProtocolRevision::V3 doc)
     let orc_no_cross = br >= Br::Nu6_3;
+    let redeem: Vec<Option<Vec<u8>>> = c.t_in.iter().map(redeem_script_of).collect();
 
     let mut exp: [Vec<&'static str>; 8] = Default::default();
     exp[T_IN] = c.t_in.iter().map(|x| if x.wrong_script { "transparent-invalid-address" } else { "" }).collect();
@@ -124,7 +177,7 @@ pub fn plan(c: &Case, reject_undecided: bool) -> Plan {
         .map(|_| {
             if !orc_exists {
                 "orchard-na"
-            } else if c.orc_anchor == Anc::Wrong {
+            } else if c.orc_anchor == Anc::Wrong && !deferred {
                 "orchard-anchor-mismatch"
             } else {
                 ""
@@ -158,7 +211,7 @@ pub fn plan(c: &Case, reject_undecided: bool) -> Plan {
                 "ironwood-na"
             } else if x.wrong_version {
                 "ironwood-note-version"
-            } else if c.iro_anchor == Anc::Wrong {
+            } else if c.iro_anchor == Anc::Wrong && !deferred {
                 "ironwood-anchor-mismatch"
             } else {
                 ""
@@ -226,8 +279,25 @@ pub fn plan(c: &Case, reject_undecided: bool) -> Plan {
     let (s_spends, s_outputs) = if sap_exists { ref_sapling_counts(n_acc(S_IN), n_acc(S_OUT)) } else { (0, 0) };
     let o_actions = if orc_exists { ref_orchard_actions(orc_no_cross, c.orc_pad, n_acc(O_IN), n_acc(O_OUT)) } else { 0 };
     let i_actions = if iro_exists { ref_orchard_actions(false, c.iro_pad, n_acc(I_IN), n_acc(I_OUT)) } else { 0 };
+    let mut unknown_p2sh = false;
+    let t_in_sizes: Vec<usize> = c
+        .t_in
+        .iter()
+        .enumerate()
+        .filter(|(i, _)| exp[T_IN][*i].is_empty())
+        .map(|(i, x)| match &x.spend {
+            TSpend::P2pkh => P2PKH_PRICED_SIZE,
+            TSpend::P2sh { m, .. } => p2sh_multisig_input_size(*m as usize, redeem[i].as_ref().expect("p2sh has a redeem script").len()),
+            TSpend::P2shOther => {
+                unknown_p2sh = true;
+                0
+            }
+        })
+        .collect();
+    // a ZIP 317 rule cannot price an input of unknown size; a fixed fee does not look at sizes
+    let unknown_p2sh = unknown_p2sh && !matches!(c.rule, Rule::Fixed(_));
     let shape = Shape {
-        t_in: n_acc(T_IN),
+        t_in_sizes,
         t_out_sizes: c
             .t_out
             .iter()
@@ -242,7 +312,7 @@ pub fn plan(c: &Case, reject_undecided: bool) -> Plan {
     };
     let undecided_shape = (o_actions > 0 && n_acc(O_IN) + n_acc(O_OUT) == 0 && !eff_ver.has_orchard())
         || (i_actions > 0 && n_acc(I_IN) + n_acc(I_OUT) == 0 && !eff_ver.has_ironwood());
-    let fee = ref_fee(&c.rule, &shape);
+    let fee = if unknown_p2sh { None } else { ref_fee(&c.rule, &shape) };
 
     // ---- solve one value
     let sum = |val: &[Vec<u64>; 8], side: [usize; 4]| -> i128 {
@@ -304,7 +374,13 @@ pub fn plan(c: &Case, reject_undecided: bool) -> Plan {
 
     // ---- documented reasons for a failing build
     let mut causes = vec![];
-    if fee.is_none() {
+    let mut may = vec![];
+    if deferred && !deferral_ok {
+        causes.push(Cause::DeferralUnsupported);
+    }
+    if unknown_p2sh {
+        causes.push(Cause::UnknownP2sh);
+    } else if fee.is_none() {
         causes.push(Cause::FeeOverflow);
     }
     if !content_compatible(eff_ver) {
@@ -325,12 +401,78 @@ pub fn plan(c: &Case, reject_undecided: bool) -> Plan {
     }
     let mut omit_tkey = None;
     let mut omit_skey = None;
-    if c.engine != Engine::Pczt {
+    let mut sign_set: Vec<usize> = vec![];
+    let mut p2sh: Vec<Option<P2shRef>> = vec![None; c.t_in.len()];
+    let mut p2sh_short_of_keys = false;
+    let has_p2sh_other = c.t_in.iter().zip(&exp[T_IN]).any(|(x, e)| e.is_empty() && x.spend == TSpend::P2shOther);
+    if has_p2sh_other {
+        if matches!(c.engine, Engine::Build | Engine::Prove) {
+            causes.push(Cause::UnsupportedScript);
+        } else {
+            // nothing is signed here; neither acceptance nor refusal is documented
+            may.push(Cause::UnsupportedScript);
+        }
+    }
+    if matches!(c.engine, Engine::Build | Engine::Prove) {
+        // signing keys: the key of every P2PKH input, the keys marked present of every multisig
+        // input, plus an unrelated one; minus the deliberately omitted one
+        sign_set.push(6);
+        for (x, e) in c.t_in.iter().zip(&exp[T_IN]) {
+            if !e.is_empty() {
+                continue;
+            }
+            match &x.spend {
+                TSpend::P2pkh | TSpend::P2shOther => sign_set.push(x.key as usize),
+                TSpend::P2sh { keys: ks, present, .. } => {
+                    sign_set.extend(ks.iter().enumerate().filter(|(j, _)| present >> j & 1 == 1).map(|(_, k)| *k as usize))
+                }
+            }
+        }
         if c.key_fault == KeyFault::MissingTransparent {
             if let Some(i) = exp[T_IN].iter().rposition(|e| e.is_empty()) {
-                omit_tkey = Some(c.t_in[i].key as usize);
-                causes.push(Cause::MissingTKey);
+                omit_tkey = Some(match &c.t_in[i].spend {
+                    TSpend::P2pkh | TSpend::P2shOther => c.t_in[i].key as usize,
+                    TSpend::P2sh { keys: ks, present, .. } => {
+                        let j = (0..ks.len()).find(|j| present >> j & 1 == 1).unwrap_or(0);
+                        ks[j] as usize
+                    }
+                });
             }
+        }
+        sign_set.sort();
+        sign_set.dedup();
+        sign_set.retain(|x| Some(*x) != omit_tkey);
+        // case-dependent order of insertion into the signing set
+        if c.key_perm & 1 == 1 {
+            sign_set.reverse();
+        }
+        if c.key_perm & 8 == 8 && !sign_set.is_empty() {
+            let r = (c.key_perm >> 4) as usize % sign_set.len();
+            sign_set.rotate_left(r);
+        }
+        // documented `MissingSigningKey`: "a required signing key was missing, or insufficient keys
+        // were provided to meet a multisig threshold"
+        let mut missing = false;
+        for (i, (x, e)) in c.t_in.iter().zip(&exp[T_IN]).enumerate() {
+            if !e.is_empty() {
+                continue;
+            }
+            match &x.spend {
+                TSpend::P2pkh => missing |= !sign_set.contains(&(x.key as usize)),
+                TSpend::P2sh { m, keys: ks, .. } => {
+                    let keys: Vec<usize> = ks.iter().map(|k| *k as usize).collect();
+                    let available: Vec<usize> = (0..keys.len()).filter(|j| sign_set.contains(&keys[*j])).collect();
+                    if available.len() < *m as usize {
+                        missing = true;
+                        p2sh_short_of_keys = true;
+                    }
+                    p2sh[i] = Some(P2shRef { m: *m as usize, keys, available });
+                }
+                TSpend::P2shOther => {}
+            }
+        }
+        if missing {
+            causes.push(Cause::MissingTKey);
         }
         if c.key_fault == KeyFault::MissingSapling {
             if let Some(i) = exp[S_IN].iter().position(|e| e.is_empty()) {
@@ -340,6 +482,12 @@ pub fn plan(c: &Case, reject_undecided: bool) -> Plan {
         }
         if eff_ver == Ver::Sprout2 {
             causes.push(Cause::PreOverwinter);
+        }
+    } else {
+        for (i, x) in c.t_in.iter().enumerate() {
+            if let TSpend::P2sh { m, keys: ks, .. } = &x.spend {
+                p2sh[i] = Some(P2shRef { m: *m as usize, keys: ks.iter().map(|k| *k as usize).collect(), available: vec![] });
+            }
         }
     }
 
@@ -362,7 +510,13 @@ pub fn plan(c: &Case, reject_undecided: bool) -> Plan {
         propose_undecided,
         undecided_shape,
         causes,
+        may,
         omit_tkey,
         omit_skey,
+        redeem,
+        p2sh,
+        sign_set,
+        p2sh_short_of_keys,
+        deferral_ok,
     }
 }
